@@ -83,6 +83,11 @@ def run(ctx):
     rng = ctx.rng
     pool = K.pool(ctx.jose)
     ec = {n: k for n, k in pool.items() if k["kty"] == "EC"}
+    # a second key on secp256k1 (the pool has one): made by the independent arithmetic, so that ECDH and the ECMR
+    # add / subtract modes between two DISTINCT keys are checked on that curve as well
+    ck = M.CURVES["secp256k1"]
+    dk = int.from_bytes(rng.randbytes(40), "big") % (ck["n"] - 1) + 1
+    ec["EC-K256-b"] = dict(M.to_jwk("secp256k1", M.mul(ck, dk, (ck["gx"], ck["gy"]))), d=M.b64u(dk.to_bytes(32, "big")))
     names = list(ec)
     ops = []
     decor = [{}, {"alg": "ECDH"}, {"alg": "ECMR"}, {"alg": "ES256"}, {"alg": "bogus"}, {"key_ops": ["deriveKey"]}, {"key_ops": ["sign"]},
